@@ -2,10 +2,12 @@ package main
 
 import (
 	"bufio"
+	"context"
 	"encoding/json"
 	"flag"
 	"fmt"
 	"os"
+	"os/exec"
 	"path/filepath"
 	"sort"
 	"strconv"
@@ -18,6 +20,7 @@ type KnownFinding struct {
 	Property   string
 	Obligation string
 	Witness    string // JSON list of leaf values
+	Test       string // path (relative to /verif) of a Go test file replayed on the real code: the finding stands while it prints STILL-FAILS
 	Text       string
 	Line       string
 }
@@ -49,7 +52,7 @@ func loadKnownFindings(path string) []KnownFinding {
 		}
 		for {
 			l = strings.TrimSpace(l)
-			if strings.HasPrefix(l, "property=") || strings.HasPrefix(l, "obligation=") || strings.HasPrefix(l, "witness=") {
+			if strings.HasPrefix(l, "property=") || strings.HasPrefix(l, "obligation=") || strings.HasPrefix(l, "witness=") || strings.HasPrefix(l, "test=") || strings.HasPrefix(l, "bounded=") {
 				i := strings.IndexByte(l, ' ')
 				tokv := l
 				if i >= 0 {
@@ -63,6 +66,8 @@ func loadKnownFindings(path string) []KnownFinding {
 					kf.Obligation = kv[1]
 				case "witness":
 					kf.Witness = kv[1]
+				case "test":
+					kf.Test = kv[1]
 				}
 				if i < 0 {
 					l = ""
@@ -113,11 +118,93 @@ func cmdCheck(args []string) {
 	repo := fs.String("repo", "/repo", "repository")
 	tier := fs.String("tier", envOr("VERIF_TIER", "quick"), "quick|thorough")
 	verif := fs.String("verif", "/verif", "verif dir")
+	bounded := fs.String("bounded", "", "comma separated govrac suites run as the bounded stand-in for the functions left trusted (reported as bounded, never as proved)")
 	fs.Parse(args[1:])
+	boundedSuites = nil
+	for _, b := range strings.Split(*bounded, ",") {
+		if b = strings.TrimSpace(b); b != "" {
+			boundedSuites = append(boundedSuites, b)
+		}
+	}
 	os.Exit(runCheck(prop, *repo, *verif, *tier))
 }
 
+var boundedSuites []string
+
+// runBounded runs the govrac suites (bounded run-time checking of the functions whose contracts are trusted leaves) and
+// returns VIOLATION / KNOWN-FINDING lines of checks that serve this property plus a summary for the evidence file.
+func runBounded(prop, repo, verif, tier string, seed int) (viol []string, knownL []string, summary []map[string]interface{}, broken string) {
+	for _, suite := range boundedSuites {
+		t0 := time.Now()
+		args := []string{"run", suite, "--repo", repo, "--verif", verif, "--tier", tier}
+		if seed != 0 {
+			args = append(args, "--seed", strconv.Itoa(seed))
+		}
+		cmd := exec.Command(filepath.Join(verif, "bin", "govrac"), args...)
+		cmd.Env = append(os.Environ(), "GOFLAGS=-mod=mod", "GOPROXY=off", "GOSUMDB=off", "GOTOOLCHAIN=local")
+		out, err := cmd.CombinedOutput()
+		code := 0
+		if err != nil {
+			code = 1
+			if ee, ok := err.(*exec.ExitError); ok {
+				code = ee.ExitCode()
+			}
+		}
+		if code >= 2 {
+			broken = fmt.Sprintf("govrac run %s failed (exit %d): %s", suite, code, firstLines(string(out), 12))
+			return
+		}
+		// which functions of the suite serve this property
+		serves := map[string]bool{}
+		var bev struct {
+			Checks []map[string]interface{} `json:"checks"`
+		}
+		if b, err := os.ReadFile(filepath.Join(verif, "evidence", "bounded", suite+".json")); err == nil {
+			json.Unmarshal(b, &bev)
+		}
+		for _, c := range bev.Checks {
+			fn, _ := c["function"].(string)
+			ids, _ := c["property_ids"].([]interface{})
+			for _, id := range ids {
+				if id == prop {
+					serves[fn] = true
+				}
+			}
+			if serves[fn] {
+				summary = append(summary, map[string]interface{}{"suite": suite, "function": fn, "kind": c["kind"], "domain": c["domain"], "cases": c["cases"], "exhaustive": c["exhaustive"], "failures": c["failures"], "known_failures": c["known_failures"], "hangs": c["hangs"], "panics": c["panics"]})
+			}
+		}
+		for _, l := range strings.Split(string(out), "\n") {
+			switch {
+			case strings.HasPrefix(l, "BOUNDED-FAILURE "):
+				fn, rp := "", ""
+				for _, f := range strings.Fields(l) {
+					if strings.HasPrefix(f, "function=") {
+						fn = strings.TrimPrefix(f, "function=")
+					}
+					if strings.HasPrefix(f, "replay=") {
+						rp = strings.TrimPrefix(f, "replay=")
+					}
+				}
+				if serves[fn] {
+					fmt.Println("  " + l)
+					viol = append(viol, fmt.Sprintf("VIOLATION property=%s replay=%s", prop, rp))
+				}
+			case strings.HasPrefix(l, "KNOWN-FINDING: property="+prop+" "):
+				knownL = append(knownL, l)
+			}
+		}
+		fmt.Printf("  bounded stand-in %s: %d check(s) serving %s, %.1fs\n", suite, len(serves), prop, time.Since(t0).Seconds())
+	}
+	return
+}
+
+var verifRoot = "/verif"
+
+func verifDir() string { return verifRoot }
+
 func runCheck(prop, repo, verif, tier string) int {
+	verifRoot = verif
 	t0 := time.Now()
 	seed, _ := strconv.Atoi(os.Getenv("VERIF_SEED"))
 	timeout := 45000
@@ -288,6 +375,20 @@ func runCheck(prop, repo, verif, tier string) int {
 	for _, l := range knownLines {
 		fmt.Println(l)
 	}
+	var boundedSummary []map[string]interface{}
+	if len(boundedSuites) > 0 {
+		bv, bk, bs, broken := runBounded(prop, repo, verif, tier, seed)
+		if broken != "" {
+			fmt.Println("ENGINE-ERROR", broken)
+			exitCode = 2
+		}
+		violations = append(violations, bv...)
+		for _, l := range bk {
+			fmt.Println(l)
+		}
+		knownLines = append(knownLines, bk...)
+		boundedSummary = bs
+	}
 	for _, v := range violations {
 		fmt.Println(v)
 	}
@@ -323,6 +424,14 @@ func runCheck(prop, repo, verif, tier string) int {
 		"modelling_notes":             dedup(notes),
 		"translation_drops":           translationDrops,
 		"explanation":                 "every obligation is generated on this run from the function bodies in the working tree plus the //@ contracts in *_verif.go; a caller sees only its callee's contract",
+	}
+	if len(boundedSuites) > 0 {
+		ev.Coverage["bounded_stand_in"] = map[string]interface{}{
+			"label":  "BOUNDED, not proved: run-time checking of the real functions against an exact-rational planar oracle over enumerated small domains (govrac); stands in for the functions whose contracts are trusted leaves of the proof",
+			"suites": boundedSuites,
+			"checks": boundedSummary,
+		}
+		ev.Assumptions = append(ev.Assumptions, "A-ORACLE: the hand-written exact-rational planar oracle of /verif/govrac (validated by its own unit tests) defines the expected answers of the bounded stand-in")
 	}
 	extraEvidence(w, prop, tier, ev.Coverage)
 	os.MkdirAll(filepath.Dir(evPath), 0o755)
@@ -406,6 +515,9 @@ func matchKnown(known []KnownFinding, prop, obl string) *KnownFinding {
 // recheckKnown re-runs the recorded witness against the real code: the finding is "known"
 // only while that very input still fails.
 func (w *World) recheckKnown(kf *KnownFinding, x *OblResult) (bool, string) {
+	if kf.Test != "" {
+		return w.runKnownTest(kf)
+	}
 	if kf.Witness == "" {
 		return true, "no witness recorded; matched by obligation name"
 	}
@@ -532,4 +644,57 @@ func cmdReplay(args []string) {
 	fmt.Println("inputs:", rf.Inputs)
 	fmt.Println("observed at record time:", rf.Observed)
 	fmt.Println("violated clauses:", rf.Violated)
+}
+
+var knownTestCache = map[string][2]string{}
+
+// runKnownTest injects the recorded test file into the package it names (first line: "// package-dir: <dir relative to the repo>")
+// with -overlay and runs it against the working tree. The test prints STILL-FAILS while the recorded input still shows the defect.
+func (w *World) runKnownTest(kf *KnownFinding) (bool, string) {
+	if c, ok := knownTestCache[kf.Test]; ok {
+		return c[0] == "1", c[1]
+	}
+	res := func(ok bool, d string) (bool, string) {
+		b := "0"
+		if ok {
+			b = "1"
+		}
+		knownTestCache[kf.Test] = [2]string{b, d}
+		return ok, d
+	}
+	src := filepath.Join(verifDir(), kf.Test)
+	b, err := os.ReadFile(src)
+	if err != nil {
+		return res(false, "known-finding test missing: "+err.Error())
+	}
+	dir := "."
+	first := strings.SplitN(string(b), "\n", 2)[0]
+	if strings.HasPrefix(first, "// package-dir:") {
+		dir = strings.TrimSpace(strings.TrimPrefix(first, "// package-dir:"))
+	}
+	tmp, err := os.MkdirTemp("", "govc-known-")
+	if err != nil {
+		return res(false, err.Error())
+	}
+	defer os.RemoveAll(tmp)
+	tf := filepath.Join(tmp, "zz_known_finding_test.go")
+	os.WriteFile(tf, b, 0o644)
+	target := filepath.Join(w.RepoDir, dir, "zz_known_finding_test.go")
+	ov, _ := json.Marshal(map[string]map[string]string{"Replace": {target: tf}})
+	ovf := filepath.Join(tmp, "ov.json")
+	os.WriteFile(ovf, ov, 0o644)
+	ctx, cancel := context.WithTimeout(context.Background(), 120*time.Second)
+	defer cancel()
+	cmd := exec.CommandContext(ctx, "go", "test", "-overlay", ovf, "-vet=off", "-count=1", "-timeout", "60s", "-run", "^TestKnownFinding", "-v", ".")
+	cmd.Dir = filepath.Join(w.RepoDir, dir)
+	cmd.Env = append(os.Environ(), "GOFLAGS=-mod=mod", "GOPROXY=off", "GOSUMDB=off", "GOTOOLCHAIN=local")
+	out, _ := cmd.CombinedOutput()
+	so := string(out)
+	if strings.Contains(so, "STILL-FAILS") {
+		return res(true, "recorded input replayed on the real code: still fails")
+	}
+	if strings.Contains(so, "NO-LONGER-FAILS") {
+		return res(false, "recorded input no longer fails")
+	}
+	return res(false, "known-finding test did not run: "+firstLines(so, 5))
 }
